@@ -236,7 +236,12 @@ def run_config(cfg, res):
       stream = b''
       while i < len(entries) or not frames:
         k = r.randint(0, 8) if r.random() < 0.2 else r.randint(1, 20)
-        f = codec.encode_pickle_frame(entries[i:i + k], protocol=r.randrange(0, 6), as_list=r.random() < 0.2)
+        if r.random() < 0.3:
+          # what a python2 sender writes: names as 8-bit strings holding UTF-8
+          f = codec.encode_pickle_frame_py2(entries[i:i + k], protocol=r.randrange(0, 3), r=r)
+          res.count('python2_style_frames')
+        else:
+          f = codec.encode_pickle_frame(entries[i:i + k], protocol=r.randrange(0, 6), as_list=r.random() < 0.2)
         prefix_positions.update(range(len(stream) + 1, len(stream) + 4))
         stream += f
         frames.append(f)
